@@ -4,6 +4,7 @@
 // character by 'x' keeps the decision when no non-ASCII character is escaped.
 #include "../harness/rc_glue.hpp"
 #include "../harness/gen.hpp"
+#include "../harness/lib.hpp"
 
 using namespace vf;
 extern "C" const vapi dflt_api;
@@ -157,6 +158,22 @@ static void stage_long(Run &R) {
     R.space("C03 length sweep: 29 shapes x 4 units (1-4 byte characters) x run lengths 1.." + std::to_string(maxn), total * R.a.nworkers);
 }
 
+// local parts longer than 2^31 octets (length arithmetic in int would wrap)
+static std::optional<Failure> check_huge(Run &R, int shape) {
+    Case cs; cs.i("huge", 1).i("shape", shape); size_t n = 0;
+    char *s = huge_input(shape, &n); if (!s) { R.note("huge input: allocation failed, case skipped"); return std::nullopt; }
+    static const bool WANT[6] = {true, false, true, false, true, true};  // shape 4 ("aaa.aaa...com") is a valid dotted local part
+    int r6 = A->part(VP_6531_LOCAL, s, s + n, 0, nullptr), r5 = A->part(VP_5321_LOCAL, s, s + n, 0, nullptr); R.eval(2);
+    free(s);
+    R.nontrivial(hashs(cs.str())); R.count("huge-inputs"); R.sample("huge", "shape " + std::to_string(shape) + ", " + std::to_string(n) + " octets: is_6531_local=" + std::to_string(r6) + " is_5321_local=" + std::to_string(r5), 6);
+    if ((r6 == 0) != WANT[shape]) return Failure{"huge-local-part", cs.str(), "local part of " + std::to_string(n) + " octets (shape " + std::to_string(shape) + "): expected " + (WANT[shape] ? "valid" : "invalid") + ", is_6531_local returned " + std::to_string(r6) + " (is_5321_local: " + std::to_string(r5) + ")"};
+    if (shape != 3 && shape != 5 && (r5 == 0) != (r6 == 0)) return Failure{"ascii-6531-vs-5321", cs.str(), "pure-ASCII local part of " + std::to_string(n) + " octets: is_5321_local=" + std::to_string(r5) + " is_6531_local=" + std::to_string(r6)};
+    return std::nullopt;
+}
+static void stage_huge(Run &R) {
+    for (int shape = 0; shape < 6; shape++) { if (shape % R.a.nworkers != R.a.worker || shape >= 6) continue; auto f = check_huge(R, shape); if (f && !R.fail(*f)) return; }
+}
+
 static void stage_random(Run &R) {
     rc_run(R, "C03 generated 6531 local parts agree with UTF-8 + 5321 reference", 3.0, [&](Src &s) -> std::optional<Failure> {
         Bytes b = s.chance(1, 2) ? gen::local_valid(s, ref::M6531) : gen::local_any(s, ref::M6531);
@@ -185,7 +202,8 @@ int main(int argc, char **argv) {
     install_death(R.a);
     inflight() = [] { return g_bytes ? mkcase(*g_bytes).str() : std::string(); };
     if (!R.a.replay.empty()) {
-        auto f = check_one(R, Case::parse(R.a.replay).getb("local"));
+        Case rc_ = Case::parse(R.a.replay);
+        auto f = rc_.has("huge") ? check_huge(R, (int) rc_.geti("shape")) : check_one(R, rc_.getb("local"));
         if (f) { printf("REPLAY-FAIL %s: %s\n", f->cls.c_str(), f->explain.c_str()); return 3; }
         printf("REPLAY-PASS\n"); return 0;
     }
@@ -195,6 +213,7 @@ int main(int argc, char **argv) {
     else if (R.a.stage == "random") stage_random(R);
     else if (R.a.stage == "corpus") stage_corpus(R);
     else if (R.a.stage == "long") stage_long(R);
+    else if (R.a.stage == "huge") stage_huge(R);
     else { fprintf(stderr, "unknown stage %s\n", R.a.stage.c_str()); return 2; }
     return finish(R);
 }
